@@ -455,6 +455,7 @@ req_sketch<T, C, A> req_sketch<T, C, A>::deserialize(std::istream& is, const Ser
   check_preamble_ints(preamble_ints, num_levels);
   check_serial_version(serial_version);
   check_family_id(family_id);
+  check_k(k);
 
   if (!is.good()) throw std::runtime_error("error reading from std::istream");
   const bool is_empty = flags_byte & (1 << flags::IS_EMPTY);
@@ -532,6 +533,7 @@ req_sketch<T, C, A> req_sketch<T, C, A>::deserialize(const void* bytes, size_t s
   check_preamble_ints(preamble_ints, num_levels);
   check_serial_version(serial_version);
   check_family_id(family_id);
+  check_k(k);
 
   const bool is_empty = flags_byte & (1 << flags::IS_EMPTY);
   const bool hra = flags_byte & (1 << flags::IS_HIGH_RANK);
@@ -700,6 +702,14 @@ void req_sketch<T, C, A>::check_preamble_ints(uint8_t preamble_ints, uint8_t num
   if (preamble_ints != expected_preamble_ints) {
     throw std::invalid_argument("Possible corruption: preamble ints must be "
         + std::to_string(expected_preamble_ints) + ", got " + std::to_string(preamble_ints));
+  }
+}
+
+template<typename T, typename C, typename A>
+void req_sketch<T, C, A>::check_k(uint16_t k) {
+  if (k < req_constants::MIN_K) {
+    throw std::invalid_argument("Possible corruption: k must be at least "
+        + std::to_string(req_constants::MIN_K) + ", got " + std::to_string(k));
   }
 }
 
